@@ -62,11 +62,8 @@ class HistogramCollection(Container[Histogram1D], ObjectWithBinning):
         return len(self.histograms)
 
     def copy(self) -> "HistogramCollection":
-        # TODO: The binnings are probably not consistent in the copies
-        binning_copy = self.binning.copy()
+        # Each member keeps a binning of its own (an adaptive one may grow)
         histograms = [h.copy() for h in self.histograms]
-        for histogram in histograms:
-            histogram._binning = binning_copy
         return HistogramCollection(*histograms, title=self.title, name=self.name)
 
     @property
@@ -93,7 +90,7 @@ class HistogramCollection(Container[Histogram1D], ObjectWithBinning):
         # TODO: Rename!
         init_kwargs: Dict[str, Any] = {"axis_name": self.axis_name}
         init_kwargs.update(kwargs)
-        histogram = Histogram1D(binning=self.binning, name=name, **init_kwargs)
+        histogram = Histogram1D(binning=self.binning.copy(), name=name, **init_kwargs)
         histogram.fill_n(values, weights=weights, dropna=dropna)
         self.histograms.append(histogram)
         return histogram
